@@ -105,6 +105,7 @@ class Sym:
         self.depth = 0
         self.trace = []
         self.recursion_guard = False
+        self.summarise_recursion = True
         self.active = []
         self.concrete_loops = False
 
@@ -146,6 +147,12 @@ class Sym:
         if self.depth >= self.max_depth:
             raise Unsupported(f'inlining depth exceeded at {f["id"]}')
         key = None
+        if not self.recursion_guard and self.summarise_recursion and \
+                any(env.get('__fn__') == f['id'] for env in st.envs):
+            # a function re-entered while it is being evaluated is summarised by a term naming the inner
+            # request (its result is whatever that request yields)
+            st.effects.append(('reentry', f['id'], this, tuple(args)))
+            return [(st, ('call', f['id'], this, tuple(args)))]
         if self.recursion_guard:
             key = (f['id'], self.value_key(this, st), tuple(self.value_key(a, st) for a in args))
             if key in self.active:
@@ -1007,6 +1014,23 @@ class Sym:
             base = q.split('<')[0]
             if base in IDENTITY_FNS and len(args) == 1:
                 return [(st, args[0])]
+        if q.startswith('ipr::util::view<') and len(args) == 1 and self.dyn_class(args[0], st) is None:
+            # util::view<K>(n) on a node of unknown class: by C06 it yields n itself exactly when n's
+            # category is K, and nothing otherwise -- fork on that
+            K = (callee.get('targs') or [q[len('ipr::util::view<'):-1]])[0]
+            isa = ('isa', K, args[0])
+            t = self.truth(isa, st)
+            outs = []
+            if t is not False:
+                s1 = st.fork() if t is None else st
+                if t is None:
+                    s1.conds.append((isa, True))
+                outs.append((s1, ('addr', args[0])))
+            if t is not True:
+                if t is None:
+                    st.conds.append((isa, False))
+                outs.append((st, NULL))
+            return outs
         r = self.intrinsic(e, callee, recv, args, st)
         if r is not None:
             return r
@@ -1027,6 +1051,7 @@ class Sym:
                         if (fof and fof.get('final')) or (rec and rec.get('final')):
                             target = fo
             if target is None:
+                self.havoc_out_args(fid, args, st)
                 return [(st, ('vcall', fid, recv, tuple(args)))]
         f = self.F.fn.get(target)
         if f is None or self.opaque(target) or f.get('ctor'):
@@ -1055,6 +1080,39 @@ class Sym:
         if f.get('lambda_call') and recv is not None and recv[0] == 'obj' and recv[1] in st.heap:
             caps = st.heap[recv[1]].tag
         return self.call_body(f, recv, args, st, captures=caps)
+
+    def havoc_out_args(self, fid, args, st):
+        """An unresolved virtual call may write through its non-const reference/pointer arguments: an object
+        of this evaluation passed that way no longer has known field values."""
+        sig = fid[fid.index('(') + 1:fid.rindex(')')] if '(' in fid else ''
+        ptypes, depth, cur = [], 0, ''
+        for ch in sig:
+            if ch in '<(':
+                depth += 1
+            elif ch in '>)':
+                depth -= 1
+            if ch == ',' and depth == 0:
+                ptypes.append(cur.strip())
+                cur = ''
+            else:
+                cur += ch
+        if cur.strip():
+            ptypes.append(cur.strip())
+        for a, pt in zip(args, ptypes):
+            if not (pt.endswith('&') or pt.endswith('*')) or pt.startswith('const '):
+                continue
+            o = a[1] if isinstance(a, tuple) and a and a[0] == 'addr' else a
+            if isinstance(o, tuple) and o and o[0] == 'obj' and o[1] in st.heap:
+                self.havoc_n = getattr(self, 'havoc_n', 0) + 1
+                ob = st.heap[o[1]]
+                for k in list(ob.fields):
+                    try:
+                        _c, fld = self.F.field(ob.cls, k)
+                    except Exception:
+                        fld = None
+                    if fld and fld.get('t', '').rstrip().endswith('&'):
+                        continue            # a reference member cannot be reseated
+                    ob.fields[k] = ('havoc', self.havoc_n, k)
 
     def static_class(self, obj_expr):
         if not obj_expr:
